@@ -18,6 +18,11 @@ def check(run, views, tier):
         n = rr.r_readexact(run, F)
         run.floor("R-READEXACT", n, 8 if rr.async_on(F) else 4, "calls on the readers' source")
         rr.r_stop_onlyexit(run, F)
+        # "consumes exactly the bytes ... through the end-of-attributes tag": every value tag is followed by its name and value elements
+        # (R-TOKEN), every tag byte is classified as the registry says (R-DISPATCH), and the parser cannot abort in its trace!() formatting
+        rr.r_token(run, F)
+        rr.r_dispatch(run, F)
+        rr.r_trace_display(run, F)
         # "delivered unmodified as the document payload": the payload adaptor forwards reads unchanged (C08's R-FORWARD)
         from ..engine import include
         from . import c08
